@@ -69,6 +69,12 @@ func coreRerun(m map[string]string) error {
 				hosts[i] = nil
 			}
 			continue
+		case "snaphand":
+			snaps[e.H] = handle{&ysgo.Snapshot{CurrentNode: e.Node}, 0}
+			if err := emit(recEvent{Ev: "snaphand", ID: c.ID, H: e.H, Node: e.Node}); err != nil {
+				return err
+			}
+			continue
 		case "snapread":
 			if sn, ok := snaps[e.H]; ok {
 				sc := hosts[sn.from].readSnap(sn.s)
